@@ -5,7 +5,8 @@
     the real [BackendMap] on every run. *)
 From Coq Require Import List Arith ZArith NArith Bool Lia.
 From Coq Require Import Znumtheory.
-From SV Require Import C12.Model C12.Proofs C12.Maglev C12.Counters.
+From Coq Require Import FMapPositive.
+From SV Require Import C12.Model C12.Proofs C12.Maglev C12.MaglevFast C12.Counters.
 Import ListNotations.
 Open Scope N_scope.
 
@@ -129,6 +130,41 @@ Proof.
     + rewrite A. unfold addr_weights. rewrite map_map. reflexivity.
     + rewrite B. reflexivity.
     + unfold addr_weights in C. rewrite map_length in C. exact C.
+Qed.
+
+(** the table the production policy is modelled with (a binary trie, what the
+    correspondence check compares slot by slot with the real 65537-slot table)
+    is, slot for slot, the table of [maglev_rebuild]; hence at the production
+    size every one of its slots holds an index into the captured addresses *)
+Theorem maglev_trie_agrees :
+  forall hashes size aw,
+    aw <> [] -> 0 < size ->
+    mf_addrs (maglev_rebuild_f hashes size aw) = m_addrs (maglev_rebuild hashes size aw) /\
+    forall c, c < size ->
+      nth (N.to_nat c) (m_table (maglev_rebuild hashes size aw)) None
+      = PositiveMap.find (pkey c) (mf_table (maglev_rebuild_f hashes size aw)).
+Proof.
+  intros hashes size aw Hne Hs.
+  destruct (maglev_rebuild_f_agrees hashes size aw Hne Hs) as (_ & _ & A & B). split; [exact A|exact B].
+Qed.
+
+Theorem maglev_trie_total_production :
+  forall (s : state) (l : list nat),
+    l <> [] ->
+    let mf := maglev_rebuild_f (s_hashes s) 65537 (addr_weights (s_heap s) l) in
+    mf_built mf = true /\
+    mf_addrs mf = map (fun h => b_addr (hget (s_heap s) h)) l /\
+    forall c, c < 65537 -> exists i, PositiveMap.find (pkey c) (mf_table mf) = Some i /\ (i < length l)%nat.
+Proof.
+  intros s l Hl.
+  destruct (maglev_rebuild_f_total (s_hashes s) 65537 (addr_weights (s_heap s) l)) as (A & B & C).
+  - unfold addr_weights. destruct l; [congruence|discriminate].
+  - exact prime_65537.
+  - apply addr_weights_pos.
+  - cbn zeta. split; [exact A|split].
+    + rewrite B. unfold addr_weights. rewrite map_map. reflexivity.
+    + intros c Hc. destruct (C c Hc) as [i [F Hi]]. exists i. split; [exact F|].
+      unfold addr_weights in Hi. rewrite map_length in Hi. exact Hi.
 Qed.
 
 (** for any size, prime or not: whatever is filled is in range *)
